@@ -47,6 +47,12 @@ CLAIMED = {
             'node, both sides of every node and mid-point.',
             'hand Lean model + binary-search invariant, decide +kernel certificates over Q on regenerated tables, bit-exact differential run',
             '5 C09'),
+    'C12': ('Theorems over the integrator model for an arbitrary environment: the step and (by induction) the whole state sequence '
+            'commute with the left-right mirror; zero-speed winds are the zero vector; wind-sock invariant (one segment per step, in '
+            'order); sort is order-independent; causality (lists agreeing on segments 0..k give identical states while in a segment '
+            '<= k); cross-wind convexity step. Tie: bit-exact correspondence of whole trajectories with 0-4 wind segments.',
+            'hand Lean model + induction over steps, bit-exact differential run of trajectories, metamorphic search on the real code',
+            '5 C12'),
 }
 NOT_APPLICABLE = {}
 TODO_REASON = 'check not built yet in this round (planned, see DESIGN.md section 5)'
